@@ -57,8 +57,12 @@ type treeWorld struct {
 	cancel  context.CancelFunc
 	nodes   []*tnode
 	perturb bool
-	mode    string
-	hookN   uint64
+	// a publisher that is held up for a long while (tens of milliseconds) in the middle of a fan-out, now and then
+	longPause bool
+	asleep    atomic.Int32 // goroutines of the library inside a long pause right now (that is not quiescence)
+	pauseNext atomic.Bool  // the next log call of a publisher takes 120 ms
+	mode      string
+	hookN     uint64
 }
 
 func isClosed(ch <-chan struct{}) bool {
@@ -100,6 +104,18 @@ func (w *treeWorld) hook(component, format string) {
 	}
 	h := n*0x9E3779B97F4A7C15 ^ uint64(len(component))*31 ^ uint64(len(format))
 	h ^= h >> 29
+	if strings.HasSuffix(component, "publisher") && w.pauseNext.CompareAndSwap(true, false) {
+		w.asleep.Add(1)
+		time.Sleep(120 * time.Millisecond)
+		w.asleep.Add(-1)
+		return
+	}
+	if w.longPause && strings.HasSuffix(component, "publisher") && h%4 == 0 {
+		w.asleep.Add(1)
+		time.Sleep(time.Duration(60+h%80) * time.Millisecond)
+		w.asleep.Add(-1)
+		return
+	}
 	if h%7 == 0 {
 		time.Sleep(time.Duration(1+h%1000) * time.Microsecond)
 	}
@@ -107,7 +123,15 @@ func (w *treeWorld) hook(component, format string) {
 
 // wait reaches quiescence: everything durably blocked, and no goroutine merely asleep in a
 // perturbation hook (virtual time is advanced a little to flush those).
-func (w *treeWorld) wait() { settle(&w.hookN) }
+func (w *treeWorld) wait() {
+	for {
+		settle(&w.hookN)
+		if w.asleep.Load() == 0 {
+			return
+		}
+		time.Sleep(20 * time.Millisecond)
+	}
+}
 
 func (w *treeWorld) srvEvent() {
 	k := kv.Pick(w.r, treeKeys)
@@ -314,6 +338,55 @@ func (w *treeWorld) sip() {
 	}
 	w.tr.line(kv.L("sip", fmt.Sprint(n.id), kv.L(parts...)))
 	w.tr.stats["act:sip"]++
+}
+
+// topup: a stalled filtered leaf is brought to within a few slots of a full buffer, refiltered and released: the
+// batch of a Refilter is delivered as far as it fits, event by event — the consumer holds the head of the batch
+func (w *treeWorld) topup() {
+	var cs []*tnode
+	for _, n := range w.nodes {
+		if n.stalled && n.refil != nil && n.events != nil && !n.closed && (n.kind == "subf" || n.kind == "subd") {
+			cs = append(cs, n)
+		}
+	}
+	if len(cs) == 0 {
+		return
+	}
+	n := kv.Pick(w.r, cs)
+	target := kcache.EventBufsiz - 1 - w.r.Intn(3)
+	if target < 1 {
+		return
+	}
+	for i := 0; i < 40 && len(n.events) < target && !isClosed(n.done); i++ {
+		room := target - len(n.events)
+		w.step(func() {
+			for j := inflight(8); j > 0 && room > 0; j, room = j-1, room-1 {
+				w.srvEvent()
+			}
+		})
+	}
+	w.step(func() { w.refilterAs(n, kv.Pick(w.r, treeFilters())) })
+	w.step(func() { w.release(n) })
+	w.tr.stats["act:topup"]++
+}
+
+// pausedAttach: a publisher is held up in the middle of a fan-out (its logger blocks for 120 ms); meanwhile somebody
+// subscribes, and more changes follow at once: they are published after Subscribe returned
+func (w *treeWorld) pausedAttach() {
+	ps := w.publishers()
+	if len(ps) == 0 || len(w.nodes) >= 9 {
+		return
+	}
+	w.tr.line(kv.L("burst-begin"))
+	w.pauseNext.Store(true)
+	w.srvEvent()
+	time.Sleep(time.Duration(1+w.r.Intn(20)) * time.Millisecond)
+	w.attachAs(kv.Pick(w.r, ps), "sub", kv.Term{Op: "null"})
+	for j := inflight(1 + w.r.Intn(3)); j > 0; j-- {
+		w.srvEvent()
+	}
+	w.tr.line(kv.L("burst-end"))
+	w.tr.stats["act:paused-attach"]++
 }
 
 // flood: up to EventBufsiz/4 server events without waiting in between
@@ -639,6 +712,7 @@ func runTreeScenario(t *testing.T, tr *tracer, idx int, seed uint64, mode string
 		modes := strings.Split(mode, ",")
 		mode = modes[r.Intn(len(modes))]
 		w := &treeWorld{tr: tr, r: r, srv: kv.NewServer(), perturb: r.Chance(2, 3), mode: mode}
+		w.longPause = w.perturb && (mode == "step" || mode == "burst") && r.Chance(1, 5)
 		if r.Chance(1, 8) {
 			// a long-lived cluster: resource versions beyond 32 bits
 			w.srv.StartAt(1<<31 + r.Intn(1000))
@@ -762,6 +836,9 @@ func runTreeScenario(t *testing.T, tr *tracer, idx int, seed uint64, mode string
 				}
 			}
 			if r.Chance(1, 2) {
+				w.topup()
+			}
+			if r.Chance(1, 2) {
 				w.step(w.closeNode)
 				w.step(w.flood)
 			}
@@ -773,6 +850,10 @@ func runTreeScenario(t *testing.T, tr *tracer, idx int, seed uint64, mode string
 		}
 		for i := 0; i < steps; i++ {
 			if mode == "burst" && r.Chance(1, 2) {
+				if w.perturb && r.Chance(1, 6) {
+					w.step(w.pausedAttach)
+					continue
+				}
 				w.step(func() { w.burst(kinds) })
 				continue
 			}
